@@ -14,7 +14,7 @@ def kidsOK (strict : Bool) (v : Value) (ks : List HTree) : Bool :=
   kidsOrdered ks && keysUnique .attribute ks && keysUnique .namespace ks &&
   (!strict || noAdjacentText ks)
 
-theorem validTree_node (s : Bool) (h : Nat) (v : Value) (ks : List HTree) :
+theorem fi_validTree_node (s : Bool) (h : Nat) (v : Value) (ks : List HTree) :
     validTree s (.node h v ks) = (kidsOK s v ks && validList s ks) := by
   simp [validTree, kidsOK]
 
@@ -31,7 +31,7 @@ theorem validTree_node (s : Bool) (h : Nat) (v : Value) (ks : List HTree) :
 
 theorem validTree_eq (s : Bool) (t : HTree) :
     validTree s t = (kidsOK s t.value t.kids && validList s t.kids) := by
-  cases t; simp [validTree_node]
+  cases t; simp [fi_validTree_node]
 
 /-! ### The components of `kidsOK` as propositions -/
 
@@ -178,46 +178,46 @@ theorem kidsOK_congr (s : Bool) (v : Value) (ks ks' : List HTree)
 /-! ### Validity and `plug` -/
 
 /-- Value of the node whose child list has the hole (`none` at root level). -/
-def innerValue (path : List Frame) : Option Value := path.getLast?.map (·.v)
+def innerValue (path : List ZipFrame) : Option Value := path.getLast?.map (·.v)
 
 def kidsOKopt (s : Bool) : Option Value → List HTree → Bool
   | none, _ => true
   | some v, ks => kidsOK s v ks
 
 @[simp] theorem innerValue_nil : innerValue [] = none := rfl
-@[simp] theorem innerValue_snoc (path : List Frame) (fr : Frame) : innerValue (path ++ [fr]) = some fr.v := by
+@[simp] theorem innerValue_snoc (path : List ZipFrame) (fr : ZipFrame) : innerValue (path ++ [fr]) = some fr.v := by
   simp [innerValue]
-theorem innerValue_cons_cons (fr fr' : Frame) (rest : List Frame) :
+theorem innerValue_cons_cons (fr fr' : ZipFrame) (rest : List ZipFrame) :
     innerValue (fr :: fr' :: rest) = innerValue (fr' :: rest) := by
   simp [innerValue, List.getLast?_cons_cons]
-@[simp] theorem innerValue_singleton (fr : Frame) : innerValue [fr] = some fr.v := rfl
+@[simp] theorem innerValue_singleton (fr : ZipFrame) : innerValue [fr] = some fr.v := rfl
 
-theorem map_value_plug_cons (fr : Frame) (rest : List Frame) (ks ks' : List HTree) :
+theorem map_value_plug_cons (fr : ZipFrame) (rest : List ZipFrame) (ks ks' : List HTree) :
     (plug (fr :: rest) ks).map HTree.value = (plug (fr :: rest) ks').map HTree.value := by
   simp
 
 /-- What validity of a plugged forest says about the hole's content. -/
-theorem valid_plug_inner (s : Bool) (path : List Frame) (ks : List HTree)
+theorem valid_plug_inner (s : Bool) (path : List ZipFrame) (ks : List HTree)
     (hv : validList s (plug path ks) = true) :
     kidsOKopt s (innerValue path) ks = true ∧ validList s ks = true := by
   induction path with
   | nil => exact ⟨rfl, hv⟩
   | cons fr rest ih =>
-    simp only [plug_cons, validList_append, validList_cons, validTree_node, Bool.and_eq_true] at hv
+    simp only [plug_cons, validList_append, validList_cons, fi_validTree_node, Bool.and_eq_true] at hv
     obtain ⟨_, ⟨h2, h3⟩, _⟩ := hv
     cases rest with
     | nil => exact ⟨h2, h3⟩
     | cons fr' rest' => rw [innerValue_cons_cons]; exact ih h3
 
 /-- The hole's content may be replaced by any valid child list that suits the hole's parent. -/
-theorem valid_plug_replace (s : Bool) (path : List Frame) (ks ks' : List HTree)
+theorem valid_plug_replace (s : Bool) (path : List ZipFrame) (ks ks' : List HTree)
     (hv : validList s (plug path ks) = true)
     (hk : kidsOKopt s (innerValue path) ks' = true) (hl : validList s ks' = true) :
     validList s (plug path ks') = true := by
   induction path with
   | nil => exact hl
   | cons fr rest ih =>
-    simp only [plug_cons, validList_append, validList_cons, validTree_node, Bool.and_eq_true] at hv ⊢
+    simp only [plug_cons, validList_append, validList_cons, fi_validTree_node, Bool.and_eq_true] at hv ⊢
     obtain ⟨h1, ⟨h2, h3⟩, h4⟩ := hv
     refine ⟨h1, ⟨?_, ?_⟩, h4⟩
     · cases rest with
